@@ -73,7 +73,20 @@ CLAIMED = {
          'Static table agreement and typestate: the 26 built-in names, their classes and arities equal the JMESPath table; args[k] is read only below the declared arity and after the arity test, value()/expression() only under the matching kind test; step 0 is rejected before the slice loops; every entry point takes const Json& and every evaluate returns const Json&.',
          'Decides the listed structural clauses; does not decide the values returned (projection scoping, truthiness, function results).',
          'DESIGN.md §4 C13'),
+ 'C04': ('dominance rules with exact constants for every digit-accumulation (MAX/base, MAX-digit, digits10-bounded loops), sign-limit constants of the signed wrappers, control dependence of integer/bignum events on the conversion result',
+         'Static guard rules: in all instantiations of the integer readers every accumulator multiplication and addition is dominated by the exact overflow test for the accumulator type (or a digits10-bounded loop), the signed wrappers compare with exactly 2^(w-1) and MAX, and the JSON parser emits an integer event only under a successful conversion, a bigint/bigdec string exactly under the lossless options. Constants are folded by clang for each type, so an off-by-one in any guard is a violation.',
+         'Decides the overflow-guard and event-kind clauses; does not decide correct rounding of from_chars/strtod, Grisu3 or bigint arithmetic (numerical; no sound static argument in reach here).',
+         'DESIGN.md §4 C04'),
+ 'C08': ('must-pass-through (end_value on every non-error path of every value writer), exact two-sided count comparison at container close, nesting guards and ladder rules shared with C10/C06',
+         'Static path rules over the CBOR, MessagePack and UBJSON encoders: every value-emitting visit_* reaches end_value() unless it stores an error or throws; container closes compare the count with the declared length in both directions with exact operands; length-less opens are rejected where the format has no indefinite containers; every open passes the nesting guard. Necessary conditions of well-formed counted containers for every event sequence.',
+         'Decides the count-bookkeeping clauses; does not decide that the bytes denote exactly the pushed data in general.',
+         'DESIGN.md §4 C08'),
+ 'C11': ('set comparison of the per-dialect keyword registries with the draft vocabularies; name binding keyword -> factory method -> validator class; use of reporter.error results over the CFG',
+         'Static registry/binding rules: each of the five dialect factories looks up every verdict-affecting keyword of its draft, every registered keyword is bound to the factory method and validator class of the same name, is_valid and validate evaluate the same tree, and every reporter.error() result is returned or tested against abort. Only structural necessary conditions of correct verdicts.',
+         'Decides registry completeness, wiring and abort propagation; does not decide the verdicts themselves.',
+         'DESIGN.md §4 C11'),
 }
+HOLD = {'C08'}   # waits for the fix it depends on to be committed in /repo
 NOT_YET = 'check under construction in this session; no structural rule registered yet'
 NA = {}
 
@@ -81,7 +94,7 @@ def main():
     props = [json.loads(l)['id'] for l in open(os.path.join(V, 'properties.jsonl'))]
     checks = []
     for pid in props:
-        if pid not in CLAIMED: continue
+        if pid not in CLAIMED or pid in HOLD: continue
         tech, text, note, ref = CLAIMED[pid]
         checks.append({
             'property_id': pid,
@@ -104,7 +117,7 @@ def main():
                      'kind_free_text': 'repository-specific static analysers (Python) over facts serialised from the type-checked clang 14 AST by the plugin in /verif/plugin; instantiation drivers in /verif/drivers'}],
         'checks': checks,
         'notes': 'Technique family: static analysis only. Exit 0 held / only known findings, 1 VIOLATION, 2 analysis broken. See DESIGN.md.',
-        'not_applicable': [{'property_id': p, 'reason': NA.get(p, NOT_YET)} for p in props if p not in CLAIMED],
+        'not_applicable': [{'property_id': p, 'reason': NA.get(p, NOT_YET)} for p in props if p not in CLAIMED or p in HOLD],
     }
     with open(os.path.join(V, 'MANIFEST.json'), 'w') as fh:
         json.dump(m, fh, indent=1)
